@@ -791,6 +791,44 @@ def function_cases(beh):
 
 
 # ----------------------------------------------------------------------------------------------
+# (a5) systems realising the declarations of spec/SolverScales.tla
+# ----------------------------------------------------------------------------------------------
+
+def scale_case(decl):
+    """Quantities a = 1e<e> and b = 30e<e> (constant small / large units, or halving in every period down
+    to that scale) and an equation s in which they are not negligible.  All equations are solved exactly
+    in one sweep, so every one of them holds at the reported values at any scale."""
+    e = int(decl['e'])
+    A = 10.0 ** e
+    H = 3
+    c = new_case('scale:%d:%s:%s:%s%s' % (e, decl['use'], decl['path'], decl['place'], ':red' if decl['red'] else ':nored'),
+                 maxtime=H, reduction=bool(decl['red']))
+    eqs = c['eqs']
+    if decl['path'] == 'level':
+        eqs += [['a', '2*ea'], ['b', '2*eb']]
+        c['exos'] += [['ea', [A / 2.0] * (H + 1)], ['eb', [15.0 * A] * (H + 1)]]
+        c['lags'].append(['LAG_a', 'a'])
+    else:
+        eqs += [['a', '0.5*LAG_a'], ['b', '0.5*LAG_b']]
+        c['lags'] += [['LAG_a', 'a'], ['LAG_b', 'b']]
+        c['ics'] += [['a', fl(A * 2 ** H)], ['b', fl(30.0 * A * 2 ** H)]]
+    use = decl['use']
+    if use == 'ratio':
+        expr, lam = 'a/b', (1.0 + 1.0 / 30.0) / (30.0 * A)
+    elif use == 'bigcoef':
+        expr, lam = 'a*%s' % fl(10.0 ** (-e)), 10.0 ** (-e)
+    elif use == 'recip':
+        expr, lam = '%s/a' % fl(A), 1.0 / A
+    elif use == 'growth':
+        expr, lam = 'a/LAG_a', 2.0 / A
+    else:
+        expr, lam = 'a + b', 2.0
+    eqs.append(['s', expr if decl['place'] == 'deco' else expr + ' + 0*s'])
+    c['lam'] = min(lam, 1e300) + 1.0
+    return c
+
+
+# ----------------------------------------------------------------------------------------------
 # (c) the named designed systems
 # ----------------------------------------------------------------------------------------------
 
@@ -1051,6 +1089,9 @@ def signature(clause, case, events):
             e['len_min'] != e['len_max'] for e in steps):
         return 'period-recorded-partly-before-retry'
     kind = case['label'].split(':')[0]
+    if kind == 'scale':
+        lab = case['label'].split(':')
+        return 'reported-values-inconsistent-at-%s-scale' % ('small' if int(lab[1]) < 0 else 'unit-or-large')
     if kind == 'fn':
         lab = case['label'].split(':')
         if fin.get('fn_pred') == 'functions' and fin.get('fn_obs') == 'other':
